@@ -101,6 +101,29 @@ func enumerate(maxLen, maxLinks int) [][]ev {
 	return out
 }
 
+// uuidLayouts: which link values share a link uuid.
+//
+//	distinct  every value its own uuid
+//	same      all values report one uuid (equal in everything but identity)
+//	pairs     values 1,2 share a uuid, 3,4 the next, ...
+//	first2    values 1 and 3 share a uuid, 2 has its own (non-adjacent twins)
+var uuidLayouts = []string{"distinct", "same", "pairs", "first2"}
+
+func layoutUUID(layout string, i int) uint64 {
+	switch layout {
+	case "same":
+		return 41
+	case "pairs":
+		return uint64(100 + i/2)
+	case "first2":
+		if i%2 == 0 {
+			return 200
+		}
+		return uint64(201 + i)
+	}
+	return uint64(i + 1)
+}
+
 type harness struct {
 	r         *vf.Run
 	le        *logrus.Entry
@@ -110,7 +133,9 @@ type harness struct {
 	delivID   int64
 	issued    atomic.Int64
 	done      atomic.Int64
-	links     []*g10sol.FakeMountedLink
+	links     []*g10sol.FakeMountedLink            // layout "distinct"
+	linkSets  map[string][]*g10sol.FakeMountedLink // per uuid layout
+	layout    string                               // layout of the case being run
 	src, dst  *keys.Identity
 	stackSnap atomic.Int64
 }
@@ -122,9 +147,18 @@ func newHarness(r *vf.Run) *harness {
 	h := &harness{r: r, le: logrus.NewEntry(l), work: make(chan func())}
 	rng := r.Rand("c33-keys")
 	h.src, h.dst = keys.New(rng), keys.New(rng)
-	for i := 0; i < 8; i++ {
-		h.links = append(h.links, &g10sol.FakeMountedLink{UUID: uint64(i + 1), TptUUID: 7, Local: h.src.ID, Remote: h.dst.ID})
+	// link VALUES are distinct objects in every layout; what differs is which of
+	// them report the same link uuid (two transports of one type produce equal
+	// webrtc link uuids; a re-built link is reported before the old value is
+	// withdrawn). The property counts links = values, whatever they report.
+	h.linkSets = map[string][]*g10sol.FakeMountedLink{}
+	for _, lay := range uuidLayouts {
+		for i := 0; i < 8; i++ {
+			h.linkSets[lay] = append(h.linkSets[lay], &g10sol.FakeMountedLink{UUID: layoutUUID(lay, i), TptUUID: 7, Local: h.src.ID, Remote: h.dst.ID})
+		}
 	}
+	h.links = h.linkSets["distinct"]
+	h.layout = "distinct"
 	idc := make(chan int64)
 	go func() {
 		idc <- g10sol.CurGoroutineID()
@@ -189,7 +223,7 @@ func (h *harness) settle(full bool, di *g10sol.FakeDI) bool {
 		h.stackSnap.Add(1)
 		for _, g := range g10sol.Goroutines() {
 			if g.ID == h.delivID {
-				if !idle && g.BaseState() != "sync.Mutex.Lock" {
+				if !idle && g.BaseState() != "sync.Mutex.Lock" && !inGate(g) {
 					return false
 				}
 				continue
@@ -233,7 +267,7 @@ func (h *harness) newCase() (*link_holdopen_controller.Controller, *g10sol.FakeD
 }
 
 func (h *harness) av(linkNo int) directive.AttachedValue {
-	return directive.NewAttachedValue(uint32(linkNo), link.MountedLink(h.links[linkNo-1]))
+	return directive.NewAttachedValue(uint32(linkNo), link.MountedLink(h.linkSets[h.layout][linkNo-1]))
 }
 
 // check evaluates the oracle at a quiescent point.
@@ -244,7 +278,7 @@ func (h *harness) check(di *g10sol.FakeDI, where string, live int, disposed bool
 		h.r.Count("references_released_more_than_once", dbl) // idempotent in controllerbus; not a violation
 	}
 	wit := func() map[string]any {
-		return map[string]any{"mode": mode, "events": desc, "checked": where, "live_links": live, "disposed": disposed,
+		return map[string]any{"mode": mode, "link_uuid_layout": h.layout, "events": desc, "checked": where, "live_links": live, "disposed": disposed,
 			"strong_refs_outstanding": out, "strong_refs_acquired_total": total, "max_parallel_acquisitions": di.MaxPending(), "reference_log": di.Log()}
 	}
 	// input class of a failure, from the fake's own log: were two strong
@@ -275,14 +309,44 @@ func (h *harness) check(di *g10sol.FakeDI, where string, live int, disposed bool
 	}
 }
 
-// runScripted runs one gate-controlled case.
-func (h *harness) runScripted(seq []ev) caseResult {
+// glue marks events seq[from:to] that are delivered back to back from the
+// delivery goroutine, with no settling in between: goroutines the code spawned
+// for the first of them have not been given a quiescence point before the next
+// callback arrives (a link flap: last link withdrawn, replacement reported at
+// once). to <= from: no group.
+type glue struct{ from, to int }
+
+func (g glue) has() bool { return g.to-g.from >= 2 }
+
+func gluedString(seq []ev, g glue) string {
+	if !g.has() {
+		return seqString(seq)
+	}
+	var b strings.Builder
+	for i, e := range seq {
+		if i > 0 {
+			b.WriteByte(' ')
+		}
+		if i == g.from {
+			b.WriteByte('[')
+		}
+		b.WriteString(e.String())
+		if i == g.to-1 {
+			b.WriteByte(']')
+		}
+	}
+	return b.String()
+}
+
+// runScripted runs one gate-controlled case. Events outside the glue group are
+// each followed by settling; the events of the group are delivered as one unit.
+func (h *harness) runScripted(seq []ev, g glue) caseResult {
 	_, di, hd, bad := h.newCase()
 	if bad != "" {
 		return caseResult{inconclusive: bad}
 	}
 	di.SetGate(true)
-	desc := seqString(seq)
+	desc := gluedString(seq, g)
 	live := map[int]bool{}
 	disposed := false
 	forced := 0
@@ -308,31 +372,72 @@ func (h *harness) runScripted(seq []ev) caseResult {
 		}
 		return true
 	}
-	for _, e := range seq {
+	// callback builds the call for a callback event and updates the model.
+	callback := func(e ev) (string, func()) {
 		switch e.k {
 		case evAdd:
-			if !unblock() {
-				return caseResult{inconclusive: "watchdog while unblocking", log: di.Log()}
-			}
 			live[e.link] = true
 			v := h.av(e.link)
-			di.Note("add" + fmt.Sprint(e.link))
-			h.deliver(func() { hd.HandleValueAdded(di, v) })
+			return "add" + fmt.Sprint(e.link), func() { hd.HandleValueAdded(di, v) }
 		case evRemove:
-			if !unblock() {
-				return caseResult{inconclusive: "watchdog while unblocking", log: di.Log()}
-			}
 			delete(live, e.link)
 			v := h.av(e.link)
-			di.Note("remove" + fmt.Sprint(e.link))
-			h.deliver(func() { hd.HandleValueRemoved(di, v) })
+			return "remove" + fmt.Sprint(e.link), func() { hd.HandleValueRemoved(di, v) }
 		case evDispose:
+			disposed = true
+			return "dispose", func() { hd.HandleInstanceDisposed(di) }
+		}
+		return "", nil
+	}
+	for i := 0; i < len(seq); i++ {
+		e := seq[i]
+		if g.has() && i == g.from {
+			// the whole group in one delivery: nothing settles inside
 			if !unblock() {
 				return caseResult{inconclusive: "watchdog while unblocking", log: di.Log()}
 			}
-			disposed = true
-			di.Note("dispose")
-			h.deliver(func() { hd.HandleInstanceDisposed(di) })
+			var calls []func()
+			note := "glued:"
+			var completed, nothing atomic.Int64
+			for _, ge := range seq[g.from:g.to] {
+				if ge.k == evAcq {
+					note += " complete"
+					calls = append(calls, func() {
+						if di.Complete(0) {
+							completed.Add(1)
+						} else {
+							nothing.Add(1)
+						}
+					})
+					continue
+				}
+				n, f := callback(ge)
+				note += " " + n
+				calls = append(calls, f)
+			}
+			di.Note(note)
+			h.deliver(func() {
+				for _, c := range calls {
+					c()
+				}
+			})
+			if !h.settle(false, di) {
+				return caseResult{inconclusive: "watchdog while settling after glued group " + desc, log: di.Log()}
+			}
+			h.r.Count("acquisitions_completed_by_script", int(completed.Load()))
+			h.r.Count("completion_events_with_nothing_parked", int(nothing.Load()))
+			h.r.Count("glued_groups_delivered", 1)
+			i = g.to - 1
+			continue
+		}
+		switch e.k {
+		case evAdd, evRemove, evDispose:
+			if !unblock() {
+				return caseResult{inconclusive: "watchdog while unblocking", log: di.Log()}
+			}
+			n, f := callback(e)
+			di.Note(n)
+			h.deliver(f)
 		case evAcq:
 			if di.Complete(0) {
 				di.Note("complete")
@@ -384,8 +489,10 @@ func (h *harness) finish(di *g10sol.FakeDI, hd directive.ReferenceHandler, live 
 }
 
 // runRapid delivers the callbacks of seq back to back (no settling, no gate):
-// the asynchronous acquisition races the following callbacks freely.
-func (h *harness) runRapid(seq []ev) caseResult {
+// the asynchronous acquisition races the following callbacks freely. split > 0:
+// the first split callbacks are delivered back to back, then everything
+// settles (the acquisition has completed), then the rest follows back to back.
+func (h *harness) runRapid(seq []ev, split int) caseResult {
 	_, di, hd, bad := h.newCase()
 	if bad != "" {
 		return caseResult{inconclusive: bad}
@@ -408,12 +515,27 @@ func (h *harness) runRapid(seq []ev) caseResult {
 			calls = append(calls, func() { hd.HandleInstanceDisposed(di) })
 		}
 	}
+	desc := seqString(seq)
+	if split > 0 && split < len(calls) {
+		desc = seqString(seq[:split]) + " | " + seqString(seq[split:])
+		head := calls[:split]
+		calls = calls[split:]
+		h.deliver(func() {
+			for _, c := range head {
+				c()
+			}
+		})
+		if !h.settle(true, di) {
+			return caseResult{inconclusive: "watchdog waiting for quiescence at the split", log: di.Log()}
+		}
+		di.Note("settled")
+	}
 	h.deliver(func() {
 		for _, c := range calls {
 			c()
 		}
 	})
-	return h.finish(di, hd, live, disposed, seqString(seq), "rapid")
+	return h.finish(di, hd, live, disposed, desc, "rapid")
 }
 
 // runBurst delivers adds (and removes) of several links from concurrent
@@ -427,6 +549,7 @@ func (h *harness) runBurst(rng *rand.Rand) (caseResult, string) {
 	keep := make([]bool, n)
 	var desc strings.Builder
 	live := map[int]bool{}
+	fmt.Fprintf(&desc, "uuids=%s ", h.layout)
 	for i := range keep {
 		keep[i] = rng.IntN(3) == 0
 		if keep[i] {
@@ -458,7 +581,7 @@ func (h *harness) runBurst(rng *rand.Rand) (caseResult, string) {
 func TestCheck(t *testing.T) {
 	r := vf.Start(t, "C33", vf.FaultEnumeration)
 	defer r.Finish()
-	r.SetRule("Real hold-open Controller.HandleDirective on a harness directive instance carrying EstablishLinkWithPeer. (1) scripted: ALL sequences of length <= 6 (thorough: <= 10 = every sequence possible with 3 links) over {add link i (i <= 3, fresh values), remove live link i, complete the parked strong acquisition, dispose (ends the callbacks)}; callbacks are delivered serially like the real instance does; the fake parks every AddReference(strong) until the script completes it, so the asynchronous acquisition is held across removals / disposal deterministically; after every event the harness waits until every new goroutine is parked in the gate or on a mutex (goroutine dump). (2) rapid: the same callback sequences delivered back to back with the gate open (acquisition races the callbacks freely). (3) burst: 2-4 goroutines deliver add (and remove) of their own link concurrently. Oracle only at quiescence (gates open, no goroutine of the controller / fake left, delivery idle): strong references outstanding on the fake >= 1 if live links > 0, = 0 if none, = 0 after dispose; then the remaining links are removed (= 0) and the instance disposed (= 0). Non-trivial = a case with at least one add and one remove or dispose; distinct = distinct (mode, sequence)")
+	r.SetRule("Real hold-open Controller.HandleDirective on a harness directive instance carrying EstablishLinkWithPeer. (1) scripted: ALL sequences of length <= 6 (thorough: <= 10 = every sequence possible with 3 links) over {add link i (i <= 3, fresh values), remove live link i, complete the parked strong acquisition, dispose (ends the callbacks)}; callbacks are delivered serially like the real instance does; the fake parks every AddReference(strong) until the script completes it, so the asynchronous acquisition is held across removals / disposal deterministically; after every event the harness waits until every new goroutine is parked in the gate or on a mutex (goroutine dump). Each sequence is also run with a GLUED group: every contiguous pair / triple of events containing a callback (and the whole sequence) is delivered back to back from the delivery goroutine with no settling inside the group, so goroutines spawned by one callback have not been given a quiescence point before the next callback arrives (link flap: last link withdrawn and a replacement reported at once, for every position). Link uuid layouts: the link VALUES are always distinct objects, but they report distinct uuids | all the same uuid | pairwise equal uuids | values 1 and 3 equal (two transports of one type, a re-built link reported before the old value is withdrawn); every sequence with >= 2 adds is run in each layout that differs for it. (2) rapid: the same callback sequences delivered back to back with the gate open (acquisition races the callbacks freely), also with one settle point after a prefix and with PRNG uuid layouts. (3) burst: 2-4 goroutines deliver add (and remove) of their own link concurrently, PRNG uuid layout. Links are counted as attached VALUES (by identity), as the property says 'while at least one link to that peer exists'. Oracle only at quiescence (gates open, no goroutine of the controller / fake left, delivery idle): strong references outstanding on the fake >= 1 if live links > 0, = 0 if none, = 0 after dispose; then the remaining links are removed (= 0) and the instance disposed (= 0). Non-trivial = a case with at least one add and one remove or dispose; distinct = distinct (mode, sequence)")
 	r.Assume("callbacks of one directive instance are delivered serially (controllerbus callCallbacksLocked queues them); the burst mode additionally delivers from several goroutines because the property names concurrent additions")
 	h := newHarness(r)
 	rng := r.Rand("c33")
@@ -468,7 +591,6 @@ func TestCheck(t *testing.T) {
 	all := enumerate(maxLen, 3)
 	r.Extra("scripted_sequences_total", len(all))
 	r.Extra("scripted_max_len", maxLen)
-	scripted := all
 	r.SetExhaustive(true) // the bounded space of scripted sequences is enumerated completely
 	nontrivial := func(s []ev) bool {
 		a, x := false, false
@@ -482,23 +604,94 @@ func TestCheck(t *testing.T) {
 		}
 		return a && x
 	}
-	for i, s := range scripted {
-		if i%16 == 0 {
-			r.Begin("scripted: " + seqString(s))
+	adds := func(s []ev) (n int) {
+		for _, e := range s {
+			if e.k == evAdd {
+				n++
+			}
 		}
-		res := h.runScripted(s)
+		return
+	}
+	callbacks := func(s []ev) (n int) {
+		for _, e := range s {
+			if e.k != evAcq {
+				n++
+			}
+		}
+		return
+	}
+	// scripted cases = sequence x glue group x link uuid layout.
+	//  - every sequence unglued, in every layout that differs from "distinct" for it
+	//  - every contiguous group of 2 or 3 events containing at least one callback
+	//    glued, plus the whole sequence (with and without its first event) glued,
+	//    in layout distinct; every pair glued in layout same (thorough: glue
+	//    only for sequences of length <= 7)
+	type scase struct {
+		seq    []ev
+		g      glue
+		layout string
+	}
+	var scripted []scase
+	glueMaxLen := r.N(6, 7)
+	for _, s := range all {
+		lays := []string{"distinct"}
+		if adds(s) >= 2 {
+			lays = append(lays, "same", "pairs")
+		}
+		if adds(s) >= 3 {
+			lays = append(lays, "first2")
+		}
+		for _, lay := range lays {
+			scripted = append(scripted, scase{s, glue{}, lay})
+		}
+		if len(s) > glueMaxLen {
+			continue
+		}
+		for _, lay := range lays[:min(2, len(lays))] {
+			seenG := map[glue]bool{}
+			addG := func(g glue) {
+				if g.from < 0 || g.to > len(s) || !g.has() || seenG[g] || callbacks(s[g.from:g.to]) == 0 {
+					return
+				}
+				seenG[g] = true
+				scripted = append(scripted, scase{s, g, lay})
+			}
+			for from := 0; from+2 <= len(s); from++ {
+				addG(glue{from, from + 2})
+				if lay == "distinct" {
+					addG(glue{from, from + 3})
+				}
+			}
+			if lay == "distinct" {
+				addG(glue{0, len(s)})
+				addG(glue{1, len(s)})
+			}
+		}
+	}
+	r.Extra("scripted_cases_total", len(scripted))
+	for i, sc := range scripted {
+		name := "scripted|uuids=" + sc.layout + "|" + gluedString(sc.seq, sc.g)
+		if i%16 == 0 {
+			r.Begin(name)
+		}
+		h.layout = sc.layout
+		res := h.runScripted(sc.seq, sc.g)
 		if res.inconclusive != "" {
-			r.Inconclusive(res.inconclusive + " :: scripted " + seqString(s))
-			r.Case("scripted|"+seqString(s), false)
+			r.Inconclusive(res.inconclusive + " :: " + name)
+			r.Case(name, false)
 			// the harness goroutine state is unknown now; rebuild it
 			h = newHarness(r)
 			continue
 		}
-		r.Case("scripted|"+seqString(s), nontrivial(s))
+		r.Case(name, nontrivial(sc.seq))
 		r.Count("cases_scripted", 1)
+		if sc.g.has() {
+			r.Count("cases_scripted_with_glued_group", 1)
+		}
+		r.Count("cases_scripted_uuids_"+sc.layout, 1)
 		r.Distinct("reference_logs", strings.Join(res.log, " "))
 		if i < 2 || i == len(scripted)/2 {
-			r.Sample(map[string]any{"mode": "scripted", "events": seqString(s), "reference_log": res.log})
+			r.Sample(map[string]any{"mode": "scripted", "link_uuid_layout": sc.layout, "events": gluedString(sc.seq, sc.g), "reference_log": res.log})
 		}
 	}
 
@@ -525,18 +718,35 @@ func TestCheck(t *testing.T) {
 		if i >= len(cbSeqs) {
 			s = cbSeqs[rng.IntN(len(cbSeqs))]
 		}
-		if i%32 == 0 {
-			r.Begin("rapid: " + seqString(s))
+		// link uuid layout and settle point: the first pass over the list is the
+		// plain one; afterwards both are drawn
+		h.layout = "distinct"
+		split := 0
+		if i >= len(cbSeqs) {
+			if adds(s) >= 2 {
+				h.layout = uuidLayouts[rng.IntN(len(uuidLayouts))]
+			}
+			if rng.IntN(2) == 0 {
+				split = rng.IntN(len(s))
+			}
 		}
-		res := h.runRapid(s)
+		name := fmt.Sprintf("rapid|uuids=%s|split%d|%s", h.layout, split, seqString(s))
+		if i%32 == 0 {
+			r.Begin(name)
+		}
+		res := h.runRapid(s, split)
 		if res.inconclusive != "" {
-			r.Inconclusive(res.inconclusive + " :: rapid " + seqString(s))
-			r.Case("rapid|"+seqString(s), false)
+			r.Inconclusive(res.inconclusive + " :: " + name)
+			r.Case(name, false)
 			h = newHarness(r)
 			continue
 		}
-		r.Case("rapid|"+seqString(s), nontrivial(s))
+		r.Case(name, nontrivial(s))
 		r.Count("cases_rapid", 1)
+		r.Count("cases_rapid_uuids_"+h.layout, 1)
+		if split > 0 {
+			r.Count("cases_rapid_with_settle_point", 1)
+		}
 		r.Distinct("reference_logs", strings.Join(res.log, " "))
 		if i == 0 {
 			r.Sample(map[string]any{"mode": "rapid", "events": seqString(s), "reference_log": res.log})
@@ -549,6 +759,8 @@ func TestCheck(t *testing.T) {
 		if i%32 == 0 {
 			r.Begin(fmt.Sprintf("burst %d", i))
 		}
+		h.layout = uuidLayouts[rng.IntN(len(uuidLayouts))]
+		r.Count("cases_burst_uuids_"+h.layout, 1)
 		res, desc := h.runBurst(rng)
 		if res.inconclusive != "" {
 			r.Inconclusive(res.inconclusive + " :: burst " + desc)
